@@ -12,6 +12,7 @@ import (
 	"path/filepath"
 	"runtime/debug"
 	"sort"
+	"strconv"
 	"strings"
 	"sync"
 	"time"
@@ -595,6 +596,23 @@ func Check(prop *Property, tier string, seed uint64, workers int, verifDir strin
 	if prop.WorkerProcs > 0 {
 		procs = prop.WorkerProcs
 	}
+	// Every worker holds up to nine nodes with two Badger stores each; most of its footprint is garbage
+	// between collections. A soft memory limit per worker (60% of what is available now, shared out)
+	// keeps sixteen of them inside the machine; with very little memory fewer workers are started.
+	memLimitMiB := 2048
+	if avail := memAvailableMiB(); avail > 0 {
+		per := avail * 6 / 10 / workers
+		for per < 900 && workers > 1 {
+			workers--
+			per = avail * 6 / 10 / workers
+		}
+		if per < memLimitMiB {
+			memLimitMiB = per
+		}
+		if memLimitMiB < 700 {
+			memLimitMiB = 700
+		}
+	}
 	start := time.Now()
 	var mu sync.Mutex
 	var records []*RunRecord
@@ -611,7 +629,7 @@ func Check(prop *Property, tier string, seed uint64, workers int, verifDir strin
 			var eb strings.Builder
 			cmd.Stderr = &eb
 			defer func() { stderrs[i] = eb.String() }()
-			cmd.Env = append(os.Environ(), fmt.Sprintf("GOMAXPROCS=%d", procs))
+			cmd.Env = append(os.Environ(), fmt.Sprintf("GOMAXPROCS=%d", procs), fmt.Sprintf("GOMEMLIMIT=%dMiB", memLimitMiB))
 			stdout, err := cmd.StdoutPipe()
 			if err != nil {
 				codes[i] = 2
@@ -799,6 +817,24 @@ func Check(prop *Property, tier string, seed uint64, workers int, verifDir strin
 	if toolErr > 0 || runs == 0 {
 		fmt.Fprintf(os.Stderr, "tool errors: %d, runs: %d\n", toolErr, runs)
 		return 2
+	}
+	return 0
+}
+
+// memAvailableMiB reads MemAvailable from /proc/meminfo (0 if unknown).
+func memAvailableMiB() int {
+	b, err := os.ReadFile("/proc/meminfo")
+	if err != nil {
+		return 0
+	}
+	for _, l := range strings.Split(string(b), "\n") {
+		if strings.HasPrefix(l, "MemAvailable:") {
+			f := strings.Fields(l)
+			if len(f) >= 2 {
+				kb, _ := strconv.Atoi(f[1])
+				return kb / 1024
+			}
+		}
 	}
 	return 0
 }
